@@ -198,10 +198,30 @@ def _check_text(txt, budget, order, all_solvers, d, h):
                 res["backend"] = name
     try:
         if all_solvers:
-            for name in order:
-                note(name, *run_solver(name, path, budget))
-                if res["status"] == "conflict":
-                    break
+            # thorough tier: the first solver with the full (larger) budget, then every other solver as a cross-check with a short
+            # wall-clock cap, concurrently: a second definitive answer must agree (sat vs unsat = conflict); "no answer in time" from
+            # a cross-checking solver is not a disagreement.  (Running every solver to its full budget on ~40k goals takes hours:
+            # cvc5 does not decide most of the quantified goals z3 closes in milliseconds.)
+            note(order[0], *run_solver(order[0], path, budget))
+            xb = dict(budget)
+            xb["wall"] = int(os.environ.get("VERIF_XCHECK_WALL", "3"))
+            if res["status"] not in ("sat", "unsat"):
+                # undecided by the first solver: the others get the full budget (one of them may decide it)
+                for name in order[1:]:
+                    note(name, *run_solver(name, path, budget))
+                    if res["status"] in ("sat", "unsat", "conflict"):
+                        break
+                return res
+            t0 = time.time()
+            procs = {name: subprocess.Popen(solver_cmd(name, xb) + [path], stdout=subprocess.PIPE, stderr=subprocess.DEVNULL, text=True) for name in order[1:]}
+            for name, p in procs.items():
+                try:
+                    out = (p.communicate(timeout=max(0.1, xb["wall"] + 1 - (time.time() - t0)))[0] or "").strip()
+                    note(name, classify(out), time.time() - t0, out)
+                except subprocess.TimeoutExpired:
+                    p.kill()
+                    p.wait()
+                    note(name, "unknown", time.time() - t0, "timeout (cross-check cap)")
             return res
         first = dict(budget)
         first["wall"] = min(budget["wall"], int(os.environ.get("VERIF_FIRST_WALL", "8")))
